@@ -28,18 +28,35 @@ def exState : B :=
 
 /-! ### (d) the fan-out loop over a subscriber list -/
 
-/-- The loop of `onPublish` over the subscriber list `subs`, for a message
-object `m` that carries a packet identifier or needs none (true of every
-decoded inbound PUBLISH) and a non-empty topic, when every connection in the
-list is alive: it emits, in list order, exactly one output per entry
-`(s, eqos)` - to a connection (`s < cbBase`) the PUBLISH with the message's
-topic, payload, DUP bit, QoS `eqos`, the publisher's packet identifier (none at
-QoS 0) and RETAIN = 0; to an in-process callback the message object with QoS
-`eqos` (RETAIN as received, finding E10).  The broker state is unchanged
-(in particular the identifier counter); of the message object only the QoS
-field and `dirty` are different afterwards: RETAIN, cleared for every
-connection, is restored after each delivery. -/
+/-- The live fan-out of `onPublish` / `Server.Publish` over the subscriber list
+`subs` (`fanoutLive`: RETAIN of the message object cleared before the loop,
+restored after it), for a message object `m` that carries a packet identifier
+or needs none (true of every decoded inbound PUBLISH) and a non-empty topic,
+when every connection in the list is alive: it emits, in list order, exactly
+one output per entry `(s, eqos)` - to a connection (`s < cbBase`) the PUBLISH
+with the message's topic, payload, DUP bit, QoS `eqos`, the publisher's packet
+identifier (none at QoS 0) and RETAIN = 0; to an in-process callback the
+message object with QoS `eqos` and RETAIN = 0 as well.  The broker state is
+unchanged (in particular the identifier counter); of the message object only
+the QoS field and `dirty` are different afterwards: RETAIN is as received. -/
 theorem C01_fanout_char (b : B) (m : Msg) (subs : List (Nat × Nat))
+    (ht : m.p.topic ≠ []) (hid : m.p.pktid ≠ 0 ∨ ∀ sq ∈ subs, sq.2 = 0)
+    (hal : ∀ sq ∈ subs, sq.1 < cbBase → b.alive sq.1 = true) :
+    (fanoutLive b m subs).2.2 = subs.map (fun sq =>
+      if sq.1 < cbBase then
+        Out.send sq.1 (.publish { dup := m.p.dup, qos := sq.2, retain := false, topic := m.p.topic,
+                                  pktid := if sq.2 = 0 then 0 else m.p.pktid, payload := m.p.payload })
+      else Out.call sq.1 { m.p with qos := sq.2, retain := false }) ∧
+    (fanoutLive b m subs).1 = b ∧
+    (fanoutLive b m subs).2.1.p = { m.p with qos := subs.foldl (fun _ sq => sq.2) m.p.qos } := by
+  obtain ⟨h1, h2, h3⟩ := fanoutLive_char subs b m ht hid hal
+  exact ⟨h3, h1, h2⟩
+
+/-- The loop itself (`fanout`), whatever object it is run over: a connection is
+sent RETAIN = 0 in any case (the `svc.onpub` closure clears the flag for its
+own write), an in-process callback is called with the object as it is - which
+is why `fanoutLive` clears the flag first. -/
+theorem C01_fanout_loop (b : B) (m : Msg) (subs : List (Nat × Nat))
     (ht : m.p.topic ≠ []) (hid : m.p.pktid ≠ 0 ∨ ∀ sq ∈ subs, sq.2 = 0)
     (hal : ∀ sq ∈ subs, sq.1 < cbBase → b.alive sq.1 = true) :
     (fanout b m subs).2.2 = subs.map (fun sq =>
@@ -65,12 +82,12 @@ example :
     let m : Msg := ⟨{ qos := 2, retain := true, topic := [97, 47, 98], pktid := 5, payload := [1, 2] }, false⟩
     let subs := [(1, 0), (1, 2), (2, 1), (1000, 1)]
     (∀ sq ∈ subs, sq.1 < cbBase → exState.alive sq.1 = true) ∧
-    (fanout exState m subs).2.2 =
+    (fanoutLive exState m subs).2.2 =
       [.send 1 (.publish { qos := 0, retain := false, topic := [97, 47, 98], pktid := 0, payload := [1, 2] }),
        .send 1 (.publish { qos := 2, retain := false, topic := [97, 47, 98], pktid := 5, payload := [1, 2] }),
        .send 2 (.publish { qos := 1, retain := false, topic := [97, 47, 98], pktid := 5, payload := [1, 2] }),
-       .call 1000 { qos := 1, retain := true, topic := [97, 47, 98], pktid := 5, payload := [1, 2] }] ∧
-    (fanout exState m subs).2.1 =
+       .call 1000 { qos := 1, retain := false, topic := [97, 47, 98], pktid := 5, payload := [1, 2] }] ∧
+    (fanoutLive exState m subs).2.1 =
       ⟨{ qos := 1, retain := true, topic := [97, 47, 98], pktid := 5, payload := [1, 2] }, true⟩ := by
   decide
 
@@ -81,7 +98,8 @@ matching subscription granted at QoS `g`, is handed for the accepted PUBLISH
 `p`: same topic, same payload, QoS `min(p.qos, g)`; a connection (`s < cbBase`)
 gets `.send s (.publish ..)` with RETAIN = 0 and the publisher's identifier
 (none at QoS 0), an in-process callback `.call s ..` with the message as
-received.  `target o` is the subscriber an output is addressed to. -/
+received except that RETAIN = 0.  `target o` is the subscriber an output is
+addressed to. -/
 
 /-- For every state satisfying the invariant whose subscribed connections are
 alive, and every decoded PUBLISH `p` (QoS <= 2, identifier present unless QoS 0)
@@ -104,18 +122,15 @@ theorem C01_publish_reaches_matching_partial (b : B) (p : Pub) (hinv : Inv b)
 
 /-- The same without assuming that the subscribed connections are alive (after
 overlapping client identifiers, finding E4, the trie can keep entries of dead
-connections): a dead connection gets nothing; everybody else gets exactly the
-deliveries above - except that, once the loop has passed a dead connection, the
-in-process callbacks after it see RETAIN = 0 instead of the received flag
-(`dropCallRetain` forgets the flag callbacks see; what connections are sent is
-compared exactly). -/
+connections): a dead connection gets nothing; everybody else - connections and
+in-process callbacks - gets exactly the deliveries above. -/
 theorem C01_publish_reaches_reachable_partial (b : B) (p : Pub) (hinv : Inv b)
     (hg : good p.topic = true) (hn : validName p.topic = true) (hq : p.qos ≤ 2)
     (hid : p.pktid ≠ 0 ∨ p.qos = 0) :
     (onPublish b ⟨p, false⟩).2.2.2 = true ∧
-    ((onPublish b ⟨p, false⟩).2.2.1.map dropCallRetain).Perm
+    (onPublish b ⟨p, false⟩).2.2.1.Perm
       (((abs b.topics.sroot).filter (fun e => matchLevels e.1 (split p.topic) && reachable b e.2.1)).map
-        (fun e => dropCallRetain (delivery p e.2.1 e.2.2))) :=
+        (fun e => delivery p e.2.1 e.2.2)) :=
   onPublish_char_gen b p hinv hg hn hq hid
 
 /-- In terms of the subscriptions held (`HeldInv`: the trie holds exactly the
@@ -170,9 +185,9 @@ theorem C01_after_history_partial (b : B) (held : List Mqtt.Spec.Broker.Held) (e
     (hinv : Inv b) (hh : HeldInv b.topics.sroot held) (hok : ∀ e ∈ es, heldOk e = true)
     (p : Pub) (hg : good p.topic = true) (hn : validName p.topic = true) (hq : p.qos ≤ 2)
     (hid : p.pktid ≠ 0 ∨ p.qos = 0) :
-    ((onPublish (run b es).1 ⟨p, false⟩).2.2.1.map dropCallRetain).Perm
+    (onPublish (run b es).1 ⟨p, false⟩).2.2.1.Perm
       (((heldRun b held es).filter (fun h => topicMatches h.filter p.topic && reachable (run b es).1 h.owner)).map
-        (fun h => dropCallRetain (delivery p h.owner h.qos))) := by
+        (fun h => delivery p h.owner h.qos)) := by
   obtain ⟨hinv', hh'⟩ := held_run es b held hinv hh hok
   refine (C01_publish_reaches_reachable_partial _ p hinv' hg hn hq hid).2.trans ?_
   refine ((hh'.perm.filter _).map _).trans ?_
@@ -220,15 +235,13 @@ theorem C01_connection_end_partial (b : B) (hinv : Inv b) (c : Nat) (hc : c < cb
     exact this
   · intro p hg hn hq hid o ho htc
     obtain ⟨_, hperm⟩ := onPublish_char_gen _ p (Inv_stop b c hinv) hg hn hq hid
-    have hin : dropCallRetain o ∈ ((onPublish (stop b c).1 ⟨p, false⟩).2.2.1.map dropCallRetain) :=
-      List.mem_map.mpr ⟨o, ho, rfl⟩
-    rw [hperm.mem_iff] at hin
+    have hin := hperm.mem_iff.mp ho
     obtain ⟨e, he, heq⟩ := List.mem_map.mp hin
     obtain ⟨_, he2⟩ := List.mem_filter.mp he
     simp only [Bool.and_eq_true] at he2
-    have h1 : target (dropCallRetain (fwd p (e.2.1, min p.qos e.2.2))) = some e.2.1 := by
-      rw [target_dropCallRetain, ← delivery_eq, target_delivery]
-    rw [heq, target_dropCallRetain, htc] at h1
+    have h1 : target (fwd { p with retain := false } (e.2.1, min p.qos e.2.2)) = some e.2.1 := by
+      rw [← delivery_eq, target_delivery]
+    rw [heq, htc] at h1
     have hce : e.2.1 = c := (Option.some.inj h1).symm
     have hr := he2.2
     rw [hce] at hr
